@@ -69,7 +69,7 @@ CHECKS = {
     ),
     "C04": dict(
         pkg="c04", level="exploration",
-        rule=("each case = a generated start state (0..6 setup ops) of one subject (mem, keyvalue/plain, mount with nested mounts, Sub(mem), Sub(mount), cache, tar -- healthy, over an archive cut inside its last entry, and with a cancelled context (UnarchiveErr set) --, os.FS under a Sub root) and one probe: "
+        rule=("each case = a generated start state (0..6 setup ops) of one subject (mem, keyvalue/plain, keyvalue over a store that has gone offline -- invalid names must be refused before the store is asked --, mount with nested mounts, Sub(mem), Sub(mount), cache, tar -- healthy, over an archive cut inside its last entry, and with a cancelled context (UnarchiveErr set) --, os.FS under a Sub root) and one probe: "
               "a helper (mkdir, mkdirall, openfile[any flags], create, writefile, remove, removeall, chmod, chtimes, chown, stat, lstat, lstatorstat, open, readdir, readfile, sub; rename/symlink with the name in either position) "
               "called with a name that is (60%) a valid path with one defect applied (empty, rooted, trailing slash, empty element, '.' or '..' element, invalid UTF-8, escape towards the sentinel; biased to mount points), "
               "(20%) a fuzzed string over {a b / . \\ : e-acute space}, (20%) a valid odd name (backslash, colon, leading dots, non-ASCII). Validity oracle = io/fs.ValidPath. Invalid: error must match ErrInvalid "
@@ -78,7 +78,7 @@ CHECKS = {
         assumptions=["'no OS path reached the kernel' is approximated by the unchanged os directory + sentinel sibling", "NUL bytes are not generated"],
         legs=[dict(name=k, run="^Test%s$" % n, quick=q, thorough=q * 10, shards=2) for (k, n, q) in [
             ("mem", "Mem", 400), ("kvplain", "KVPlain", 200), ("mount2", "Mount2", 500), ("submem", "SubMem", 300), ("submountpt", "SubMountPt", 300),
-            ("cache", "Cache", 200), ("tar", "Tar", 150), ("tarbroken", "TarBroken", 100), ("tarcanceled", "TarCanceled", 100), ("osfs", "OSFS", 200), ("sublenient", "SubLenient", 150)]] + [
+            ("cache", "Cache", 200), ("tar", "Tar", 150), ("kvoffline", "KVOffline", 150), ("tarbroken", "TarBroken", 100), ("tarcanceled", "TarCanceled", 100), ("osfs", "OSFS", 200), ("sublenient", "SubLenient", 150)]] + [
             dict(name="fuzznames", run="^$", fuzz="^FuzzNames$", fuzztime="45s", tiers=("thorough",), timeout_thorough=240)],
     ),
     "C07": dict(
